@@ -30,11 +30,16 @@ def gen_cases(ck, sgs, allstrata):
         if not st:
             continue
         idx = list(range(len(st)))
+        extra = []
         if len(idx) > nmax:
             best = max(idx, key=lambda i: st[i]["nstab"])
             rest = [i for i in idx if i not in (0, best)]
             ck.rng.shuffle(rest)
             idx = [0, best] + rest[: nmax - 2]
+            extra = rest[nmax - 2:]       # the remaining strata of a many-strata setting: the exact site only, no variants
+        for i in extra:
+            x0 = [strata.frac(p) for p in st[i]["xyz"]]
+            yield sg, "exact", x0, x0, st[i]
         for i in idx:
             x0 = [strata.frac(p) for p in st[i]["xyz"]]
             yield sg, "exact", x0, x0, st[i]
